@@ -1057,8 +1057,11 @@ class StructFamily(Family):
 
     def coq_check(self, case, obs):
         if obs.get("construct") != "ok":
-            # refused schemas (exhaust-buffer misuse, "0p", ...): the model's constructor must agree
-            return coq_construct(case["schema"], obs.get("construct"))
+            # schemas refused for exhaust-buffer misuse or "0p": the model's constructor must agree
+            # (other refusals, e.g. a property called "type", are outside the model: finding F9e)
+            if oracle_construct_valid(case["schema"], obs.get("construct")) is REPAIRED:
+                return coq_construct(case["schema"], obs.get("construct"))
+            return None
         return coq_rows(case["schema"], case["values"], obs["rows"])
 
     def nontrivial(self, case, obs):
